@@ -82,7 +82,7 @@ func (c C16Case) expandRuns(env *model.Env, pkg *model.Package) []RTRun {
 	return out
 }
 
-const c16Rule = "valid reference-encoded streams (binary and NDJSON) of generated packages x cut positions: every prefix length when the stream has at most 400 bytes after the header plus 8 positions inside the header; otherwise positions within 3 bytes of every value start (of a sample of them and of all those near a buffer boundary when there are more than 400), within 12 bytes of every multiple of 65536 and 120 generated positions; in a third of the cases strings of 1-3 buffer lengths and vectors of 9000-25000 elements are drawn often, in another third (binary only) a stream step's items are repeated until its encoding exceeds 66-140 kB, so that the stream spans several 64 KiB reader buffers. Each prefix is read by the generated reader (Python; C++ built with AddressSanitizer and UBSan) copying into a generated NDJSON writer. oracle: binary - every strict prefix must end in an error; NDJSON - an error unless the prefix is itself a complete stream under the documented grammar; the values delivered before the error are exactly a prefix of the original values; no sanitizer report, no crash, no hang. non-trivial = the cut lies after the header (inside a value, a length-prefixed container or a stream block); distinct = (model, values, cut position)"
+const c16Rule = "valid reference-encoded streams (binary and NDJSON) of generated packages x cut positions: every prefix length when the stream has at most 400 bytes after the header plus 8 positions inside the header; otherwise positions within 3 bytes of every value start (of a sample of them and of all those near a buffer boundary when there are more than 400), within 12 bytes of every multiple of 65536 and 120 generated positions; in a third of the cases strings of 1-3 buffer lengths and vectors of 9000-25000 elements are drawn often, in another third (binary only) a stream step's items are repeated until its encoding exceeds 66-140 kB, so that the stream spans several 64 KiB reader buffers. Each prefix is read by the generated reader (Python; C++ built with AddressSanitizer, in the thorough tier also with UBSan) copying into a generated NDJSON writer. oracle: binary - every strict prefix must end in an error; NDJSON - an error unless the prefix is itself a complete stream under the documented grammar; the values delivered before the error are exactly a prefix of the original values; no sanitizer report, no crash, no hang. non-trivial = the cut lies after the header (inside a value, a length-prefixed container or a stream block); distinct = (model, values, cut position)"
 
 // flatten lists (step index, value) in the order values appear in a stream.
 type flatVal struct {
@@ -263,7 +263,7 @@ func checkC16(c C16Case) *Fail {
 			} else {
 				rec.Skip("python-does-not-build")
 			}
-		} else if err := b.BuildCpp(sut.CppOpts{NDJson: true, ASan: true}); err == nil {
+		} else if err := b.BuildCpp(sut.CppOpts{NDJson: true, ASan: true, UBSan: core.Thorough()}); err == nil {
 			usable[lang] = true
 		} else {
 			rec.Skip("cpp-does-not-build")
@@ -386,7 +386,7 @@ func init() {
 func TestC16(t *testing.T) {
 	rec := core.Rec("C16")
 	rec.SetRule(c16Rule)
-	rec.Assume("the C++ driver is built with -fsanitize=address,undefined; the Python leg counts any exception as 'reported'", "delivered values are observed at a generated NDJSON writer used as the sink", "a 300 s limit per batch of cuts stands for 'does not hang'")
+	rec.Assume("the C++ driver is built with -fsanitize=address (thorough tier: address,undefined); the Python leg counts any exception as 'reported'", "delivered values are observed at a generated NDJSON writer used as the sink", "a 300 s limit per batch of cuts stands for 'does not hang'")
 	replayKnown(t, "C16")
 	rapid.Check(t, func(rt *rapid.T) {
 		cfg := rtGenConfig()
